@@ -1256,6 +1256,8 @@ class Interp:
         if isinstance(v, Rat):
             if name == "real":
                 return v
+            if name == "copy":
+                return lambda: v
             if name in ("ndim",):
                 return 0
             if name == "shape":
